@@ -10,7 +10,7 @@
     enqueue / body replacement / signature / gas election / public-access data / evidence / removal /
     arbitrary writes to the other stores / attestRouter on a message. *)
 From Coq Require Import String List ZArith Bool.
-From Paloma Require Import Evm.Attest Evm.AttestProofs Evm.AttestSym.
+From Paloma Require Import Cons.Quorum Evm.Attest Evm.AttestProofs Evm.AttestSym Evm.AttestEvidence Evm.AttestEvidenceProofs.
 From Paloma Require Evm.AttestExamples. (* non-vacuity examples, built with the theorems *)
 Import ListNotations.
 Open Scope Z_scope.
@@ -145,6 +145,143 @@ Section C07.
   Qed.
 End C07.
 
+(** Second round — the seam between evidence consensus (C04) and the attester.  Theorems 1-6 take
+    "the winner VerifyEvidence elected" as an input of the history.  Here the history consists of
+    the validators' single reports (AddMessageEvidence) and attestRouter elects the winner itself,
+    at that moment, with C04's model of VerifyEvidence over the bytes TxExecutedProof.BytesToHash
+    returns (Evm/AttestEvidence.v).  [hash] (sha256 inside the group key) and [enc] (the
+    serialisation of what BytesToHash covers) are arbitrary; their collisions are explicit
+    disjuncts.  [snapshot_of]: the snapshot current in a given state of the stores, arbitrary. *)
+Section C07Evidence.
+  Variables B S V D H T W E : Type.
+  Variable kind_of : B -> kind.
+  Variable fees_present : B -> bool.
+  Variable expected_calldata : B -> Z -> Z -> V -> list S -> D.
+  Variable expected_deploy : B -> D.
+  Variable D_eqb : D -> D -> bool.
+  Variable H_eqb : H -> H -> bool.
+  Variable tx_hash : T -> H.
+  Variable tx_data : T -> D.
+  Variable valset_at : W -> Z -> V.
+  Variable compass_present : W -> bool.
+  Variable apply_effect : E -> msg B S T -> T -> W -> option (W * list B).
+  Variable on_error_proof : E -> msg B S T -> W -> W * list B.
+  Variable K : Type.
+  Variable keqb : K -> K -> bool.
+  Variable hash : Z -> Z -> K.
+  Variable enc : payload T -> Z.
+  Variable snapshot_of : W -> snapshot.
+  Hypothesis H_eqb_refl : forall h, H_eqb h h = true.
+  Hypothesis T_eq_dec : forall a b : T, {a = b} + {a <> b}.
+  Hypothesis keqb_spec : forall a b, keqb a b = true <-> a = b.
+
+  Notation run := (run B S V D H T W E kind_of fees_present expected_calldata expected_deploy D_eqb H_eqb
+                     tx_hash tx_data valset_at compass_present apply_effect on_error_proof).
+  Notation rrun := (rrun B S V D H T W E kind_of fees_present expected_calldata expected_deploy D_eqb H_eqb
+                      tx_hash tx_data valset_at compass_present apply_effect on_error_proof keqb hash enc snapshot_of).
+  Notation rrun_from := (rrun_from B S V D H T W E kind_of fees_present expected_calldata expected_deploy D_eqb H_eqb
+                           tx_hash tx_data valset_at compass_present apply_effect on_error_proof keqb hash enc snapshot_of).
+  Notation flatten := (flatten B S V D H T W E kind_of fees_present expected_calldata expected_deploy D_eqb H_eqb
+                         tx_hash tx_data valset_at compass_present apply_effect on_error_proof keqb hash enc snapshot_of).
+  Notation rendblock_ids := (rendblock_ids B S V D H T W E kind_of fees_present expected_calldata expected_deploy D_eqb H_eqb
+                               tx_hash tx_data valset_at compass_present apply_effect on_error_proof keqb hash enc snapshot_of).
+
+  (** 9. Success effects only if the SUCCESSFUL receipt of exactly that transaction was reported by
+      2/3 of the snapshot.  For every committed success follow-up [e] there is the attestation that
+      committed it, and at that moment, among the reports stored with the message, validators
+      holding at least 2/3 of the current snapshot's recorded total had each handed in the proof
+      (transaction of [e], receipt [r]) with r.Status = 1 — the identical transaction and the
+      identical receipt, status included.  (Or the group-key hash / the serialisation collide.)
+      Every [ord] in the history stands for an iteration order of Go's map of groups. *)
+  Theorem success_effects_only_if_two_thirds_reported_success : forall w n (rops : list (@rop B S T W E K)) e,
+    Forall (fun o => match o with RAttest _ _ ord => forall gs, Permutation.Permutation (ord gs) gs | _ => True end) rops ->
+    In e (effects _ _ _ _ _ _ (abs (rrun w n rops))) ->
+    exists rops1 rops2 env ord r,
+      rops = rops1 ++ RAttest (m_id _ _ _ (e_msg _ _ _ _ e)) env ord :: rops2 /\
+      r_status r = receipt_status_successful /\
+      let s := rrun w n rops1 in
+      let evs := get_reports T (m_id _ _ _ (e_msg _ _ _ _ e)) (evid s) in
+      let sn := snapshot_of (world _ _ _ _ _ _ (abs s)) in
+      (exists t d t' d' : Z, (t, d) <> (t', d') /\ hash t d = hash t' d') \/
+      (exists a b : payload T, a <> b /\ enc a = enc b) \/
+      exists vals, NoDup vals /\
+                   (forall u, In u vals -> In (u, PTx (e_tx _ _ _ _ e) (Some r)) evs) /\
+                   2 * sn_total sn <= 3 * power sn vals.
+  Proof.
+    intros w n rops e Hok.
+    apply (AttestEvidenceProofs.success_effects_only_if_two_thirds_reported_success B S V D H T W E kind_of fees_present
+             expected_calldata expected_deploy D_eqb H_eqb tx_hash tx_data valset_at compass_present apply_effect
+             on_error_proof keqb hash enc snapshot_of H_eqb_refl T_eq_dec keqb_spec w n rops e
+             (eq_refl : Gen.C07.bth_covers_full_tx = true) (eq_refl : Gen.C07.bth_covers_full_receipt = true)).
+    eapply Forall_impl; [|exact Hok]. intros [] Ho; try exact I. exact Ho.
+  Qed.
+
+  (** 10. A history of reports is a history of theorems 1-6: its state is the state of the run in
+      which the elected winner is filed right before every attestation. *)
+  Theorem history_of_reports_is_a_history : forall w n rops,
+    abs (rrun w n rops) = run w n (flatten (rinit B S V H T W w n) rops).
+  Proof.
+    intros w n rops.
+    exact (refined_run_is_a_run B S V D H T W E kind_of fees_present expected_calldata expected_deploy D_eqb H_eqb
+             tx_hash tx_data valset_at compass_present apply_effect on_error_proof keqb hash enc snapshot_of
+             rops (rinit B S V H T W w n)).
+  Qed.
+
+  (** 11. What is stored with a message is, per validator, the latest proof that validator handed in
+      while the message was queued (later submissions for it were refused: not queued any more). *)
+  Theorem stored_report_is_the_validators_latest : forall w n (rops : list (@rop B S T W E K)) id v p,
+    In (v, p) (get_reports T id (evid (rrun w n rops))) ->
+    exists rops1 rops2,
+      rops = rops1 ++ RAddEvidence id v p :: rops2 /\
+      (exists m, find_msg B S T id (queue _ _ _ _ _ _ (abs (rrun w n rops1))) = Some m) /\
+      (forall p' a b, rops2 = a ++ RAddEvidence id v p' :: b ->
+         find_msg B S T id (queue _ _ _ _ _ _ (abs (rrun w n (rops1 ++ RAddEvidence id v p :: a)))) = None).
+  Proof.
+    exact (AttestEvidenceProofs.stored_report_is_the_validators_latest B S V D H T W E kind_of fees_present
+             expected_calldata expected_deploy D_eqb H_eqb tx_hash tx_data valset_at compass_present apply_effect
+             on_error_proof keqb hash enc snapshot_of H_eqb_refl).
+  Qed.
+
+  (** 12. The end-blocker loop on histories of reports: the run of the single attestations. *)
+  Theorem endblock_over_reports_is_a_run_of_attests : forall l s env ord,
+    rendblock_ids s l env ord = rrun_from s (map (fun i => RAttest i (env i) (ord i)) l).
+  Proof.
+    exact (rendblock_is_a_run_of_attests B S V D H T W E kind_of fees_present expected_calldata expected_deploy D_eqb H_eqb
+             tx_hash tx_data valset_at compass_present apply_effect on_error_proof keqb hash enc snapshot_of).
+  Qed.
+End C07Evidence.
+
+(** 13. T — the seam as extracted: what the bytes the reports are grouped by cover (the WHOLE
+    serialised transaction and the WHOLE serialised receipt, hence the receipt status), how the
+    proof's byte fields are decoded, that the winner handed out is the evidence that opened the
+    winning group, and what attestMessageWrapper does before it calls the attester. *)
+Theorem evidence_seam_as_modelled :
+  G.bth_tx_proof_parts = ["h.GetTX().MarshalBinary()"; "h.GetReceipt().MarshalBinary()"]%string /\
+  G.bth_without_receipt = "h.GetTX().MarshalBinary()"%string /\
+  G.bth_covers_full_tx = true /\ G.bth_covers_full_receipt = true /\
+  G.get_tx_decodes = "tx.UnmarshalBinary(h.SerializedTX)"%string /\
+  G.get_receipt_decodes = "receipt.UnmarshalBinary(h.SerializedReceipt)"%string /\
+  G.bth_error_proof = "[]byte(h.ErrorMessage)"%string /\
+  G.winner_is = "first evidence of the group"%string /\
+  G.evidence_seam = ["no evidence => nil"; "VerifyEvidence over all stored evidence"; "consensus not achieved => nil";
+                     "other error => returned"; "attester gets result.Winner"]%string /\
+  G.consensus_checker = "libcons.New(k.Valset.GetCurrentSnapshot, k.cdc)"%string /\
+  G.add_evidence_shape = "replace the validator's proof in place, else append"%string.
+Proof. repeat split; reflexivity. Qed.
+
+(** 14. The 2/3 clause of theorem 9 needs the receipt status among the hashed bytes: with
+    rlp [PostState; CumulativeGasUsed; Bloom; Logs] in place of the serialised receipt, a 20-share
+    validator's "success" report, handed in first, is what the attester sees although 80 shares
+    reported the failed receipt (replayed on the real code by the harness: C07:effects-against-agreed-receipt). *)
+Theorem two_thirds_clause_refuted_when_status_is_not_hashed :
+  elect_with Corr.C07.tx Corr.C07.ckeqb Corr.C07.chash Corr.C07.c_enc AttestExamples.cov_without_status Corr.C07.c_ord
+    AttestExamples.sn3 AttestExamples.reports_dissent = Some (WTx (500, AttestExamples.d1) (Some 1)) /\
+  elect Corr.C07.tx Corr.C07.ckeqb Corr.C07.chash Corr.C07.c_enc Corr.C07.c_ord
+    AttestExamples.sn3 AttestExamples.reports_dissent = Some (WTx (500, AttestExamples.d1) (Some 0)) /\
+  power AttestExamples.sn3 (map fst (filter (fun vp => match snd vp with PTx _ (Some r) => r_status r =? 1 | _ => false end)
+                                       AttestExamples.reports_dissent)) = 20.
+Proof. exact AttestExamples.status_out_of_the_hash_lets_a_minority_report_win. Qed.
+
 (** 7. T — over the argument lists extracted from eth_txable.go: every action-bearing field is
     packed, and equal expected calls mean the same call. *)
 Theorem packed_covers_action_fields : forall k f, In f (required k) -> In f (packed_of k).
@@ -186,3 +323,9 @@ Print Assumptions endblock_is_a_run_of_attests.
 Print Assumptions packed_covers_action_fields.
 Print Assumptions calldata_match_means_same_call.
 Print Assumptions gates_as_modelled.
+Print Assumptions success_effects_only_if_two_thirds_reported_success.
+Print Assumptions history_of_reports_is_a_history.
+Print Assumptions stored_report_is_the_validators_latest.
+Print Assumptions endblock_over_reports_is_a_run_of_attests.
+Print Assumptions evidence_seam_as_modelled.
+Print Assumptions two_thirds_clause_refuted_when_status_is_not_hashed.
